@@ -332,7 +332,7 @@ func (c *Check[C]) FuzzOne(t *testing.T, v C) {
 // harnessEnv returns the process-level switches a replay must set again.
 func harnessEnv() map[string]string {
 	out := map[string]string{}
-	for _, k := range []string{"VERIF_COLD_OUTAGE", "VERIF_HOSTILE_ENTROPY"} {
+	for _, k := range []string{"VERIF_COLD_OUTAGE", "VERIF_HOSTILE_ENTROPY", "VERIF_FOREIGN_HASH"} {
 		if v := os.Getenv(k); v != "" {
 			out[k] = v
 		}
@@ -554,6 +554,13 @@ func Main(m *testing.M) {
 		repair()
 		fmt.Println("VERIF-COLD-OUTAGE done, mode", mode)
 	}
+	if os.Getenv("VERIF_FOREIGN_HASH") == "1" {
+		// In this process the SHA-256 registered with package crypto is a correct implementation of ANOTHER Go type: a wrapper
+		// that has only the hash.Hash methods (no encoding.BinaryMarshaler / BinaryUnmarshaler, no concrete *sha256.digest), like a
+		// metering wrapper, a hardware back end or a third-party implementation.
+		crypto.RegisterHash(crypto.SHA256, func() hash.Hash { return onlyHash{sha256.New()} })
+		fmt.Println("VERIF-FOREIGN-HASH installed")
+	}
 	if os.Getenv("VERIF_HOSTILE_ENTROPY") == "1" {
 		// The ambient entropy is an input nobody lists: in this process crypto/rand.Reader delivers, for ever, 32-byte blocks
 		// equal to p, n, 0, 2^256-1, p-1, n-1, p+1, n+1, 2^255, 1, ... Functions that are specified as deterministic must not
@@ -563,6 +570,8 @@ func Main(m *testing.M) {
 	}
 	os.Exit(m.Run())
 }
+
+type onlyHash struct{ hash.Hash }
 
 type hostileEntropy struct {
 	mu  sync.Mutex
